@@ -12,7 +12,6 @@ var NotApplicable = map[string]string{
 var Pending = map[string]string{
 	"C01": "check designed in DESIGN.md section 4 but not built yet in this round; not claimed until it exists",
 	"C02": "check designed in DESIGN.md section 4 but not built yet in this round; not claimed until it exists",
-	"C05": "check designed in DESIGN.md section 4 but not built yet in this round; not claimed until it exists",
 	"C07": "check designed in DESIGN.md section 4 but not built yet in this round; not claimed until it exists",
 	"C09": "check designed in DESIGN.md section 4 but not built yet in this round; not claimed until it exists",
 	"C10": "check designed in DESIGN.md section 4 but not built yet in this round; not claimed until it exists",
